@@ -91,6 +91,11 @@ pub fn assemble_count(text: &str) -> Option<usize> {
 const NEXTS: [&str; 10] =
     ["n\n", "next\n", "N\n", "NEXT\n", "Next\n", "  n  \n", "next \n", "\tn\n", "n\r\n", "nExT\n"];
 const QUITS: [&str; 5] = ["q\n", "quit\n", "Q\n", " QUIT \n", "quit\r\n"];
+/// lines that are instructions of the machine, not commands of the prompt: they must be rejected
+/// like any other garbage, not carried out
+const GARBAGE_INSTRUCTIONS: [&str; 10] = [
+    "inc ax\n", "push bx\n", "stc\n", "mov byte [250], 7\n", "mov ax, 5\n", "hlt\n", "pop cx\n", "mov ds, ax\n", "std\n", "dec sp\n",
+];
 const GARBAGE: [&str; 16] = [
     "\n",
     "foo\n",
@@ -162,10 +167,16 @@ fn service_line(r: &mut Rng, regs: &[u16; 14], mem: &[u8], pol: &ScriptPolicy) -
         let cap = mem[a] as i64;
         let c = [0, 1, cap - 1, cap, cap + 1, cap + 5, 255, 300, cap / 2];
         let mut l = *r.pick(&c);
+        if r.chance(6) {
+            // very long lines: whatever a service leaves unread must not turn into the next line
+            l = *r.pick(&[1023i64, 1024, 1025, 1500, 5000, 8191, 8192, 8193]);
+        }
         if l < 0 {
             l = 0;
         }
         l as usize
+    } else if r.chance(6) {
+        *r.pick(&[1023usize, 1024, 1025, 1500, 5000, 8191, 8192, 8193])
     } else {
         *r.pick(&[0usize, 1, 1, 2, 5])
     };
@@ -220,6 +231,8 @@ pub fn dry_run(scn: &Scenario, pol: &ScriptPolicy, r: &mut Rng) -> (History, Vec
                 } else if x < pol.quit_pct + pol.print_pct + pol.garbage_pct {
                     if rr.chance(4) {
                         (AnsKind::Garbage, format!("{}\n", "x".repeat(5000)).into_bytes())
+                    } else if rr.chance(15) {
+                        (AnsKind::Garbage, rr.pick(&GARBAGE_INSTRUCTIONS).as_bytes().to_vec())
                     } else if rr.chance(10) {
                         // k ASCII characters, then multi-byte ones: some character straddles every
                         // small byte offset (16, 32, 64, 128, 255 ...) sooner or later
@@ -504,9 +517,10 @@ pub fn build_session(r: &mut Rng, seed: u64, run: u64, plan: &SessionPlan) -> Op
             b.stdin.bytes = Bytes(script);
             case.alts.push(AltRun { role: "interpreted_ref".to_owned(), scn: b, gen: Some(rinfo) });
         }
-        if plan.alt_no_prints && lines.iter().any(|l| l.kind == AnsKind::Print) {
+        if plan.alt_no_prints && lines.iter().any(|l| l.kind == AnsKind::Print || l.kind == AnsKind::Garbage) {
+            // the same session with every line that must not advance or change anything taken out
             let mut a = case.scn.clone();
-            a.stdin.bytes = Bytes(concat(&lines, |l| l.kind != AnsKind::Print));
+            a.stdin.bytes = Bytes(concat(&lines, |l| l.kind != AnsKind::Print && l.kind != AnsKind::Garbage));
             a.stdin.plan.clear();
             a.stdout.plan.clear();
             // only meaningful when the main script was not cut short
